@@ -119,6 +119,29 @@ impl ObjectWriter for ObjectWriterFS {
         let relative_path = content_location_path
             .strip_prefix('/')
             .unwrap_or(content_location_path);
+
+        // The object must be stored inside the destination directory: refuse absolute
+        // paths and `..` components, and require at least one file name component
+        let mut is_confined = true;
+        let mut has_file_name = false;
+        for component in std::path::Path::new(relative_path).components() {
+            match component {
+                std::path::Component::Normal(_) => has_file_name = true,
+                std::path::Component::CurDir => {}
+                _ => is_confined = false,
+            }
+        }
+        if !is_confined || !has_file_name {
+            log::error!(
+                "Content location {:?} is not inside the destination directory",
+                self.meta.content_location
+            );
+            return Err(FluteError::new(format!(
+                "Content location {:?} is not inside the destination directory",
+                self.meta.content_location
+            )));
+        }
+
         let destination = self.dest.join(relative_path);
         log::info!(
             "Create destination {:?} {:?} {:?}",
